@@ -10,3 +10,5 @@ import AioMySensors.Model.PyFloat
 import AioMySensors.Model.State
 import AioMySensors.Model.Effects
 import AioMySensors.Model.Handlers
+import AioMySensors.Model.Gateway
+import AioMySensors.Model.Mqtt
